@@ -254,4 +254,94 @@ theorem leadsTo_of_helpful (R : HelpfulRule S fair P Q V helpful) (hex : Exec S 
 
 end
 
+/-! ### Helpful-action rule relative to a transition constraint (added for C21)
+
+Same as `leadsTo_of_helpful`, but the obligations are only asked of transitions satisfying `T`, and
+the execution is only required to make `T`-transitions from position `N` on.  `T` carries
+hypotheses about the environment that are not state predicates ("from now on no request of another
+peer overtakes the waiting one"). -/
+
+structure HelpfulRuleOn (S : Sys State Action) (fair : Action → Prop) (T : State → State → Prop)
+    (P Q : State → Prop) (V : State → Nat) (helpful : State → Action) : Prop where
+  keep : ∀ s a s', P s → ¬ Q s → S.step s a = some s' → T s s' →
+    Q s' ∨ (P s' ∧ (V s' < V s ∨ (V s' = V s ∧ helpful s' = helpful s)))
+  enabled : ∀ s, P s → ¬ Q s → fair (helpful s) ∧ S.enabled (helpful s) s
+  helps : ∀ s s', P s → ¬ Q s → S.step s (helpful s) = some s' → T s s' → Q s' ∨ V s' < V s
+
+section
+variable {S : Sys State Action} {fair : Action → Prop} {T : State → State → Prop}
+variable {P Q : State → Prop} {V : State → Nat} {helpful : State → Action} {σ : Nat → State}
+
+private theorem hstaysOn (R : HelpfulRuleOn S fair T P Q V helpful) (hex : Exec S σ) (N : Nat)
+    (hT : ∀ i, N ≤ i → T (σ i) (σ (i + 1))) (i : Nat) (hi : N ≤ i)
+    (hP : P (σ i)) (hnQ : ∀ j, i ≤ j → ¬ Q (σ j)) :
+    ∀ d, P (σ (i + d)) ∧ (V (σ (i + d)) < V (σ i) ∨
+      (V (σ (i + d)) = V (σ i) ∧ helpful (σ (i + d)) = helpful (σ i))) := by
+  intro d
+  induction d with
+  | zero => exact ⟨hP, Or.inr ⟨rfl, rfl⟩⟩
+  | succ d ih =>
+    have hnq := hnQ (i + d) (Nat.le_add_right _ _)
+    have hnq' := hnQ (i + (d + 1)) (Nat.le_add_right _ _)
+    have e : i + (d + 1) = i + d + 1 := rfl
+    rcases hex (i + d) with h | ⟨a, h⟩
+    · rw [e, h]; exact ih
+    · have k0 := R.keep _ a _ ih.1 hnq h (hT (i + d) (Nat.le_trans hi (Nat.le_add_right _ _)))
+      rw [e]
+      have k : P (σ (i + d + 1)) ∧ (V (σ (i + d + 1)) < V (σ (i + d)) ∨
+          (V (σ (i + d + 1)) = V (σ (i + d)) ∧ helpful (σ (i + d + 1)) = helpful (σ (i + d)))) := by
+        rcases k0 with hq | hk
+        · exact absurd hq (by rw [← e]; exact hnq')
+        · exact hk
+      refine ⟨k.1, ?_⟩
+      · rcases k.2 with hlt | ⟨heq, hh⟩
+        · rcases ih.2 with h2 | ⟨h2, _⟩
+          · exact Or.inl (Nat.lt_trans hlt h2)
+          · exact Or.inl (by rw [← h2]; exact hlt)
+        · rcases ih.2 with h2 | ⟨h2, h3⟩
+          · exact Or.inl (by rw [heq]; exact h2)
+          · exact Or.inr ⟨by rw [heq, h2], by rw [hh, h3]⟩
+
+/-- **Helpful-action rule under a transition constraint holding from position `N` on.** -/
+theorem leadsTo_of_helpful_from (R : HelpfulRuleOn S fair T P Q V helpful) (hex : Exec S σ)
+    (hwf : WF1 S fair σ) (N : Nat) (hT : ∀ i, N ≤ i → T (σ i) (σ (i + 1))) :
+    ∀ i, N ≤ i → P (σ i) → ∃ j, i ≤ j ∧ Q (σ j) := by
+  have main : ∀ n i, N ≤ i → V (σ i) = n → P (σ i) → ∃ j, i ≤ j ∧ Q (σ j) := by
+    intro n
+    induction n using Nat.strongRecOn with
+    | _ n ih =>
+      intro i hi hv hP
+      apply Classical.byContradiction
+      intro hno
+      have hnQ : ∀ j, i ≤ j → ¬ Q (σ j) := fun j hj hq => hno ⟨j, hj, hq⟩
+      have hst := hstaysOn R hex N hT i hi hP hnQ
+      have hnodrop : ∀ d, ¬ V (σ (i + d)) < V (σ i) := by
+        intro d hlt
+        obtain ⟨k, hk, hq⟩ := ih _ (by rw [← hv]; exact hlt) (i + d)
+          (Nat.le_trans hi (Nat.le_add_right _ _)) rfl (hst d).1
+        exact hno ⟨k, Nat.le_trans (Nat.le_add_right _ _) hk, hq⟩
+      have hsame : ∀ d, V (σ (i + d)) = V (σ i) ∧ helpful (σ (i + d)) = helpful (σ i) := by
+        intro d
+        rcases (hst d).2 with h | h
+        · exact absurd h (hnodrop d)
+        · exact h
+      have hen : ∀ j, i ≤ j → S.enabled (helpful (σ i)) (σ j) := by
+        intro j hj
+        obtain ⟨d, rfl⟩ := Nat.exists_eq_add_of_le hj
+        have := (R.enabled _ (hst d).1 (hnQ _ hj)).2
+        rw [(hsame d).2] at this; exact this
+      obtain ⟨j, hij, hstep⟩ := hwf _ (R.enabled _ hP (hnQ i (Nat.le_refl _))).1 i hen
+      obtain ⟨d, rfl⟩ := Nat.exists_eq_add_of_le hij
+      rw [← (hsame d).2] at hstep
+      rcases R.helps _ _ (hst d).1 (hnQ _ hij) hstep
+          (hT (i + d) (Nat.le_trans hi (Nat.le_add_right _ _))) with hq | hlt
+      · exact hnQ (i + d + 1) (Nat.le_trans hij (Nat.le_succ _)) hq
+      · have e : i + d + 1 = i + (d + 1) := rfl
+        rw [e, (hsame d).1] at hlt
+        exact hnodrop (d + 1) hlt
+  intro i hi hP
+  exact main _ i hi rfl hP
+
+end
+
 end GS.Temporal
